@@ -165,6 +165,22 @@ let () =
             let inter = List.exists (fun (w, _) -> inG a w && inG b w) (pair_witnesses a b) in
             if (p 1 = '1') = inter then
               fail id "SPEC" "disjoint_is_not_intersects" (Printf.sprintf "Disjoint=%c some common point=%b" (p 1) inter);
+            (* geom.Intersects itself (a separate, non-overlay code path) is the negation of Disjoint, is
+               symmetric, and says whether the two point sets share a point *)
+            if Array.length f > 14 && String.length f.(14) = 2 then begin
+              count "intersects_observed";
+              let iab = f.(14).[0] and iba = f.(14).[1] in
+              if iab = 'p' || iba = 'p' then fail id "SPEC" "intersects_panics" f.(14);
+              if (iab = '1') = (p 1 = '1') then
+                fail id "SPEC" "intersects_is_not_disjoint" (Printf.sprintf "Intersects(a,b)=%c Disjoint(a,b)=%c" iab (p 1));
+              if (iba = '1') = (q 1 = '1') then
+                fail id "SPEC" "intersects_is_not_disjoint" (Printf.sprintf "Intersects(b,a)=%c Disjoint(b,a)=%c" iba (q 1));
+              if (iab = '1') <> inter then
+                fail id "SPEC" "intersects_is_common_point" (Printf.sprintf "Intersects(a,b)=%c some common point=%b" iab inter);
+              if (iba = '1') <> inter then
+                fail id "SPEC" "intersects_is_common_point" (Printf.sprintf "Intersects(b,a)=%c some common point=%b" iba inter);
+              if iab = '1' then count "true_Intersects"
+            end;
             (* documented patterns on the definitional matrix (non-empty operands) *)
             if not (ea || eb) then begin
               let chk i pats = let want = List.exists (ogc_match dab) pats in
